@@ -14,12 +14,16 @@ from .common import Finding, fhex, flist, cbool, coq_list
 REL_TOL = 1e-12
 
 PROBE_ABC = '''
+from numpy import inf
 name = "verif_probe_abc"
 title = "C05 probe returning the particle-frame q"
 description = "Iqabc = qa | qb | qc selected by sel"
 category = "shape:parallelepiped"
 parameters = [
     ["sel", "", 0.0, [0, 3], "", "which component to return"],
+    ["v1", "Ang", 10.0, [0, inf], "volume", "size parameter the probe ignores (dispersity on it must not matter)"],
+    ["v2", "Ang", 20.0, [0, inf], "volume", ""],
+    ["v3", "Ang", 30.0, [0, inf], "volume", ""],
     ["theta", "degrees", 0, [-360, 360], "orientation", ""],
     ["phi", "degrees", 0, [-360, 360], "orientation", ""],
     ["psi", "degrees", 0, [-360, 360], "orientation", ""],
@@ -29,12 +33,16 @@ Iq = "return q;"
 Iqabc = "return sel < 0.5 ? qa : sel < 1.5 ? qb : qc;"
 '''
 PROBE_AC = '''
+from numpy import inf
 name = "verif_probe_ac"
 title = "C05 probe returning (qab, qc)"
 description = "Iqac = qab | qc selected by sel"
 category = "shape:cylinder"
 parameters = [
     ["sel", "", 0.0, [0, 3], "", "which component to return"],
+    ["v1", "Ang", 10.0, [0, inf], "volume", "size parameter the probe ignores"],
+    ["v2", "Ang", 20.0, [0, inf], "volume", ""],
+    ["v3", "Ang", 30.0, [0, inf], "volume", ""],
     ["theta", "degrees", 0, [-360, 360], "orientation", ""],
     ["phi", "degrees", 0, [-360, 360], "orientation", ""],
 ]
@@ -110,6 +118,21 @@ def main(run):
         pars.update(scale=1.0, background=0.0)
         jnames = rng.sample(names, rng.choice([0, 1, 1, 2, len(names), len(names)]))
         api = rng.random() < 0.3      # jitter through the keyword interface (symmetric), else a hand-made asymmetric mesh
+        # combined size + angle dispersity: the probe ignores its size parameters, so the value must not change;
+        # every fifth case fills all five dispersity loops of the kernel (three sizes + two angles) and leaves the
+        # remaining angle at a non-zero view value without jitter
+        sizes = []
+        if ci % 5 == 4:
+            sizes = ["v1", "v2", "v3"]
+            jnames = ["theta", "phi"]
+            for n_ in names:
+                if n_ not in jnames and view[n_] == 0.0:
+                    view[n_] = rng.uniform(10, 170); pars[n_] = view[n_]
+            stats["five_loops"] = stats.get("five_loops", 0) + 1
+        elif rng.random() < 0.3:
+            sizes = rng.sample(["v1", "v2", "v3"], rng.randint(1, 2))
+        for sn in sizes:
+            pars[sn + "_pd"] = rng.uniform(0.05, 0.3); pars[sn + "_pd_n"] = rng.choice([2, 3]); pars[sn + "_pd_type"] = "gaussian"
         custom = {}
         for jn in jnames:
             if api:
@@ -118,7 +141,9 @@ def main(run):
                 pars[jn + "_pd_type"] = rng.choice(["gaussian", "rectangle", "uniform"])
                 pars[jn + "_pd_nsigma"] = rng.choice([3.0, 2.0, 1.0])
             else:
-                n = rng.choice([1, 2, 3, 4])
+                # (a hand-made ONE-point jitter away from zero cannot arise through the interface and only gets a loop
+                #  slot while slots are free: not generated together with size dispersity)
+                n = rng.choice([1, 2, 3, 4]) if not sizes else rng.choice([2, 3])
                 custom[jn] = (np.array([rng.uniform(-70, 70) for _ in range(n)]), np.array([rng.uniform(0.1, 1.0) for _ in range(n)]))
         stats["jitter_dims"][len(jnames)] += 1
         stats["sym" if sym else "triaxial"] += 1
